@@ -44,6 +44,11 @@ type thread struct {
 	wake chan struct{}
 	op   Op
 	done bool
+	// rendezvous on an unbuffered channel (see chan.go): matched is the channel
+	// a pending sender has claimed this (receiving) thread on; parked is
+	// signalled by a sender that has completed its real send and parked again.
+	matched uintptr
+	parked  chan struct{}
 	// env threads model the environment (timers, remote peer): running one when
 	// a program thread could run instead counts as a deviation like a preemption.
 }
@@ -97,6 +102,9 @@ type sched struct {
 	closed    map[uintptr]bool
 	wg        sync.WaitGroup
 	zombies   bool
+	// senders that were released into their real (rendezvous) send and have
+	// not parked again yet; every scheduling decision waits for them first
+	inflight []*thread
 }
 
 var s *sched // the active exploration (nil: pass-through mode)
@@ -120,7 +128,7 @@ func RunOnce(prefix []int, maxPoints int, body func()) *Exec {
 		panic("vsched: nested RunOnce")
 	}
 	sc := &sched{prefix: prefix, maxPoints: maxPoints, exec: &Exec{}, finished: make(chan struct{}), closed: map[uintptr]bool{}}
-	t0 := &thread{id: 0, name: "main", wake: make(chan struct{}, 1)}
+	t0 := &thread{id: 0, name: "main", wake: make(chan struct{}, 1), parked: make(chan struct{}, 1)}
 	sc.threads = []*thread{t0}
 	sc.cur = t0
 	sc.live = 1
@@ -214,7 +222,7 @@ func Go(name string, f func()) {
 		return
 	}
 	sc := s
-	t := &thread{id: len(sc.threads), name: name, wake: make(chan struct{}, 1), op: basicOp("start " + name)}
+	t := &thread{id: len(sc.threads), name: name, wake: make(chan struct{}, 1), parked: make(chan struct{}, 1), op: basicOp("start " + name)}
 	sc.threads = append(sc.threads, t)
 	sc.live++
 	sc.wg.Add(1)
@@ -255,6 +263,16 @@ func (sc *sched) abort() {
 }
 
 func (sc *sched) pick(running *thread, exiting bool) *thread {
+	for _, t := range sc.inflight {
+		select {
+		case <-t.parked:
+		case <-time.After(10 * time.Second):
+			// the matched receiver never performed its receive: the hooks
+			// do not describe the code (engine limitation, not a verdict)
+			panic("vsched: rendezvous send did not complete; construct is not modelled")
+		}
+	}
+	sc.inflight = nil
 	ids, runEn := sc.enabled(running)
 	if len(ids) == 0 {
 		sc.exec.Deadlock = true
